@@ -147,8 +147,10 @@ def _worker(chunk):
     for j in jobs:
         try:
             out.extend(m.run_job(j))
-        except Exception as e:   # fail closed: an analyser crash is an undischarged obligation
+        except BaseException as e:   # fail closed: an analyser crash (or a fail-closed SystemExit: it would kill the pool worker and hang the pool) is an undischarged obligation
             import traceback
+            if isinstance(e, KeyboardInterrupt):
+                raise
             out.append(('ENGINE', 'crash;%s' % (j,), False, 'analyser exception: %s\n%s' % (e, traceback.format_exc()[-1500:]), None))
     return out
 
@@ -267,4 +269,7 @@ def map_jobs(fn_name, modname, jobs, nproc=None, chunk=None):
 def _map_worker(c):
     import importlib
     fn_name, modname, jobs = c
-    return getattr(importlib.import_module(modname), fn_name)(jobs)
+    try:
+        return getattr(importlib.import_module(modname), fn_name)(jobs)
+    except SystemExit as e:          # would kill the pool worker and hang the pool
+        raise RuntimeError('worker exit: %s' % (e,))
